@@ -84,4 +84,130 @@ theorem roundtrip_doc (version : Nat) (o : Opts) (pol : Policy) (cif : WCif) (ou
       rw [this]
       exact hfeeds
 
+/-! ### the output is well-formed UTF-16 of allowed characters -/
+
+theorem okUnits_app (dia : Dialect) (a b : Str) (ha : okUnits dia none a = true) (hb : okUnits dia none b = true) :
+    okUnits dia none (a ++ b) = true := by
+  rw [Lemmas.WriterLexUnits.okUnits_append dia a b none ha]; exact hb
+
+theorem adm_units {dia : Dialect} {p : Presentation} {s : Str} (h : admissible dia p s = true) : okUnits dia none s = true := by
+  cases p with
+  | bare =>
+    cases s with
+    | nil => rfl
+    | cons c r =>
+      simp only [admissible, bareOk, Bool.and_eq_true] at h
+      exact h.1.1.1.1
+  | squote => simp only [admissible, quotedOk, Bool.and_eq_true] at h; exact h.1.1
+  | dquote => simp only [admissible, quotedOk, Bool.and_eq_true] at h; exact h.1.1
+  | tsquote => simp only [admissible, Spec.Lexical.tripleOk, Bool.and_eq_true] at h; exact h.1.2
+  | tdquote => simp only [admissible, Spec.Lexical.tripleOk, Bool.and_eq_true] at h; exact h.1.2
+  | text => simp only [admissible, textOk, Bool.and_eq_true] at h; exact h.1
+
+theorem render_units {dia : Dialect} {p : Presentation} {s : Str} (h : okUnits dia none s = true) :
+    okUnits dia none (renderValue p s) = true := by
+  have hq : ∀ (a b : Str), okUnits dia none a = true → okUnits dia none b = true → okUnits dia none (a ++ (s ++ b)) = true :=
+    fun a b ha hb => okUnits_app dia a _ ha (okUnits_app dia s b h hb)
+  cases p with
+  | bare => exact h
+  | squote => exact hq [39] [39] (by cases dia <;> decide) (by cases dia <;> decide)
+  | dquote => exact hq [34] [34] (by cases dia <;> decide) (by cases dia <;> decide)
+  | tsquote => exact hq [39, 39, 39] [39, 39, 39] (by cases dia <;> decide) (by cases dia <;> decide)
+  | tdquote => exact hq [34, 34, 34] [34, 34, 34] (by cases dia <;> decide) (by cases dia <;> decide)
+  | text => exact hq [59] [10, 59] (by cases dia <;> decide) (by cases dia <;> decide)
+
+theorem tk_units {dia : Dialect} {t : Tk} (h : t.ok dia = true) : okUnits dia none t.chars = true := by
+  cases t with
+  | data code =>
+    simp only [Tk.ok, Bool.and_eq_true, nonBlankOk] at h
+    exact okUnits_app dia _ _ (by cases dia <;> decide) h.2.1
+  | save code =>
+    simp only [Tk.ok, Bool.and_eq_true, nonBlankOk] at h
+    exact okUnits_app dia _ _ (by cases dia <;> decide) h.2.1
+  | saveEnd => cases dia <;> decide
+  | loopKw => cases dia <;> decide
+  | name n =>
+    cases n with
+    | nil => simp [Tk.ok] at h
+    | cons u s =>
+      simp only [Tk.ok] at h
+      split at h
+      · rename_i s' heq
+        injection heq with e1 e2
+        subst e1; subst e2
+        simp only [nonBlankOk, Bool.and_eq_true] at h
+        exact okUnits_app dia [95] _ (by cases dia <;> decide) h.1
+      · cases h
+  | val p s =>
+    simp only [Tk.ok, Bool.and_eq_true] at h
+    exact render_units (adm_units h.1)
+  | key p k =>
+    simp only [Tk.ok, Bool.and_eq_true, beq_iff_eq] at h
+    obtain ⟨⟨hd, _⟩, hadm⟩ := h
+    subst hd
+    exact okUnits_app _ _ [58] (render_units (adm_units hadm)) (by decide)
+  | opn c =>
+    simp only [Tk.ok, Bool.and_eq_true, Bool.or_eq_true, beq_iff_eq] at h
+    obtain ⟨hd, hc⟩ := h
+    subst hd
+    rcases hc with rfl | rfl <;> decide
+  | cls c =>
+    simp only [Tk.ok, Bool.and_eq_true, Bool.or_eq_true, beq_iff_eq] at h
+    obtain ⟨hd, hc⟩ := h
+    subst hd
+    rcases hc with rfl | rfl <;> decide
+
+theorem ws_units {dia : Dialect} : ∀ (a : List WsAtom), (∀ x ∈ a, x.ok dia = true) → okUnits dia none (renderWs a) = true := by
+  intro a
+  induction a with
+  | nil => intro _; rfl
+  | cons x r ih =>
+    intro h
+    have hx := h x (by simp)
+    have hr := ih (fun y hy => h y (by simp [hy]))
+    have e : renderWs (x :: r) = x.render ++ renderWs r := by simp [renderWs]
+    rw [e]
+    refine okUnits_app dia _ _ ?_ hr
+    cases x with
+    | blank c =>
+      simp only [WsAtom.ok, Spec.Lexical.isBlank, Bool.or_eq_true, beq_iff_eq] at hx
+      rcases hx with rfl | rfl <;> cases dia <;> decide
+    | eol => cases dia <;> decide
+    | comment b =>
+      simp only [WsAtom.ok, Bool.and_eq_true] at hx
+      exact okUnits_app dia [35] _ (by cases dia <;> decide) (okUnits_app dia b [10] hx.1 (by cases dia <;> decide))
+
+/-- accepted chunks render to well-formed UTF-16 of characters the dialect allows -/
+theorem okC_units (dia : Dialect) : ∀ (cs : List Chunk) (lt : TokType) (w : List WsAtom), okC dia lt w cs →
+    okUnits dia none (renderWs w ++ renderChunks cs) = true := by
+  intro cs
+  induction cs with
+  | nil =>
+    intro lt w h
+    simp only [renderChunks, List.append_nil]
+    exact ws_units w h.1
+  | cons x r ih =>
+    intro lt w h
+    cases x with
+    | ws a =>
+      have e : renderWs w ++ renderChunks (.ws a :: r) = renderWs (w ++ a) ++ renderChunks r := by
+        simp [renderChunks, renderWs_append]
+      rw [e]
+      exact ih lt (w ++ a) h
+    | tk t =>
+      obtain ⟨hw, htok, _, _, hrest⟩ := h
+      have := ih _ [] hrest
+      exact okUnits_app dia _ _ (ws_units w hw.1) (okUnits_app dia _ _ (tk_units htok) this)
+
+/-- the units `cif_write` hands to the stream: well-formed UTF-16 (no unpaired surrogate) of characters the dialect allows -/
+theorem output_units (version : Nat) (nk : Str → Str) (cif : WCif) (out : Str)
+    (hR : cifR (if version = 1 then .cif1 else .cif2) nk cif) (hw : writeCif version cif = .ok out) :
+    okUnits (if version = 1 then .cif1 else .cif2) none out = true := by
+  let o : Opts := { dia := if version = 1 then .cif1 else .cif2, maxFrameDepth := 1, unfold := true, prem := true, notUtf8 := false,
+                    store := true, norm := id, normKey := nk }
+  obtain ⟨d, cs, _, hr, _, hok, _, _⟩ := cif_chunks o rfl rfl version cif out rfl hR hw
+  have := okC_units o.dia cs .end_ [] hok
+  rw [hr]
+  exact this
+
 end CifModel.Lemmas.WriterChunks
